@@ -28,6 +28,12 @@ def key_of(case, clause):
     return {'expr': expr, 'ref': c['ref'], 'ref_class': ref_class(c['ref']), 'clause': clause.split(':')[0]}
 
 
+def _post(work, V, cases, obs):
+    from .. import mechbind
+    info = mechbind.rel_period(work, V)
+    return {'mech_model_checks': info, 'states': sum(m['distinct_states'] for m in info), 'transitions': sum(m['distinct_states'] for m in info)}
+
+
 def run(tier):
     return flow.run_standard(
         PROP, tier, gens=[{'module': 'Gen_RelDate', 'cfg': 'Gen_RelDate_%s.cfg' % tier}],
@@ -35,7 +41,7 @@ def run(tier):
         rule='cases = terminal states of Gen_RelDate (%s): reference days (year boundaries, ISO week 52/53/1, leap day, month ends) x times of day x '
              '{today, tomorrow, yesterday, N days|weeks ago, in N days|weeks, N days from now, next/last/this <weekday>, this/next/last week|month|year, now}; '
              'oracle = calendar arithmetic of RelDate.tla on day ordinals; replayed into recognize_datetime; verdict by TLC (Trace_DT)' % tier,
-        assumptions=d.ASSUME, exhaustive=True)
+        assumptions=d.ASSUME, exhaustive=True, post=_post)
 
 
 def replay(path):
